@@ -1934,6 +1934,72 @@ mod c08 {
         (w.into_inner(), h_ref)
     }
 
+    /// A well-formed object of `n` identical LZ4 frames of a 128 KiB zero chunk (about 19 MB for 32768) whose
+    /// chunks unpack to n * 128 KiB bytes: with n = 32768 that is exactly 2^32, one more than the format's 32-bit
+    /// offsets can express.  `with_footer`: a V1 footer whose unpacked offsets are the sums modulo 2^32.
+    fn oversized_object(n: usize, with_footer: bool) -> (Vec<u8>, RH) {
+        let chunk = vec![0u8; 128 * 1024];
+        let ch = rm::chunk_hash(&chunk);
+        let mut w = Cursor::new(Vec::new());
+        let one = rm::xorb_hash(&[(ch, chunk.len() as u64)]);
+        CasObject::serialize(&mut w, &rm::to_mh(&one), &chunk, &[(rm::to_mh(&ch), chunk.len() as u32)], scheme_opt(1)).unwrap_or_else(|e| machinery_error(&format!("cannot serialize the one-chunk seed: {e}")));
+        let v = w.into_inner();
+        let (fr, _) = rm::split_xorb(&v).unwrap_or_else(|e| machinery_error(&format!("one-chunk seed does not split: {e}")));
+        let frame = fr.to_vec();
+        let list: Vec<(RH, u64)> = (0..n).map(|_| (ch, chunk.len() as u64)).collect();
+        let h = rm::xorb_hash(&list);
+        let mut out = Vec::with_capacity(frame.len() * n + 48 * n + 256);
+        let mut phys = Vec::with_capacity(n);
+        let mut unp = Vec::with_capacity(n);
+        let mut u = 0u32;
+        for _ in 0..n {
+            out.extend_from_slice(&frame);
+            phys.push(out.len() as u32);
+            u = u.wrapping_add(chunk.len() as u32);
+            unp.push(u);
+        }
+        if with_footer {
+            let hashes: Vec<RH> = vec![ch; n];
+            out.extend_from_slice(&rm::build_footer(&h, &hashes, &phys, Some(&unp)));
+        }
+        (out, h)
+    }
+
+    /// The validators on the oversized objects: whatever they answer, it must not be a panic, and an acceptance
+    /// would vouch for unpacked offsets that cannot describe 2^32 bytes.
+    pub fn check_oversized(out: &mut Partial) {
+        let n = 32768usize;
+        for with_footer in [true, false] {
+            let (b, h) = oversized_object(n, with_footer);
+            let origin = format!("oversized-{n}x128KiB-{}", if with_footer { "v1-footer" } else { "no-footer" });
+            let replay = json!({"lab": "xorb", "kind": "c08-oversized", "origin": origin, "mutation": "unmutated", "bytes_hex": Value::Null, "hashes": []});
+            let mut meter = Meter { max_single: 0, max_peak: 0, max_micros: 0 };
+            let mut verdicts: Vec<(&str, V)> = vec![];
+            if with_footer {
+                verdicts.push(("validate_cas_object", run_seekable(&b, &h, &mut meter).0));
+            }
+            verdicts.push(("validate_cas_object_from_async_read", run_stream(&b, &h, 1 << 20, &mut meter).0));
+            for (name, v) in verdicts {
+                out.count("inputs", 1);
+                out.count("vac:oversized_object_validations", 1);
+                out.count(&v.key(&format!("oversized:{name}")), 1);
+                match v {
+                    V::Panic(sig) => out.violation(&sig, format!("{name} panicked on a well-formed {} byte object whose {n} chunks unpack to 2^32 bytes [{origin}]", b.len()), replay.clone()),
+                    V::Accept(c) => {
+                        let last = c.info.unpacked_chunk_offsets.last().copied().unwrap_or(0) as u64;
+                        out.violation(
+                            "C08/accepts-footer-mismatch",
+                            format!("{name} accepted a {} byte object whose {n} chunks unpack to 4294967296 bytes; the footer it vouches for ends at unpacked offset {last} [{origin}]", b.len()),
+                            replay.clone(),
+                        );
+                    },
+                    V::Reject | V::Error(_) => {},
+                }
+            }
+            out.max("max:largest_single_allocation_bytes", meter.max_single as u64);
+        }
+    }
+
     /// the inputs of one job, in order
     fn job_inputs(spec: &Value, seeds: &[Seed], tier: Tier) -> Vec<(String, String, Vec<u8>, Vec<RH>, Option<usize>)> {
         let mut v = vec![];
@@ -1993,6 +2059,14 @@ mod c08 {
         let tier = if spec["tier"].as_str() == Some("thorough") { Tier::Thorough } else { Tier::Quick };
         let sabotage: u8 = std::env::var("XORB_LAB_SABOTAGE").ok().and_then(|s| s.parse().ok()).unwrap_or(0);
         let seeds = seeds(tier);
+        if spec["oversized"].as_bool() == Some(true) {
+            let mut out = Partial::default();
+            CAP_ON.store(true, Ordering::SeqCst);
+            check_oversized(&mut out);
+            CAP_ON.store(false, Ordering::SeqCst);
+            out.write_out(args.out.as_ref().expect("--out"));
+            return;
+        }
         let inputs = job_inputs(&spec, &seeds, tier);
         let skip: Vec<u64> = spec["skip"].as_array().cloned().unwrap_or_default().iter().filter_map(|x| x.as_u64()).collect();
         let side = spec["side"].as_str().map(|s| std::fs::OpenOptions::new().create(true).write(true).truncate(true).open(s).expect("side file"));
@@ -2061,7 +2135,9 @@ mod c08 {
                 .unwrap_or_else(|e| machinery_error(&format!("parse replay: {e}")));
             let r = &v["replay"];
             let origin = r["origin"].as_str().unwrap_or("");
-            if !r["bytes_hex"].is_string() && origin.starts_with("big-") {
+            if origin.starts_with("oversized-") {
+                specs.push(("replay".into(), json!({"oversized": true, "tier": tier.name()})));
+            } else if !r["bytes_hex"].is_string() && origin.starts_with("big-") {
                 // large valid xorbs are regenerated from their description; the whole 8-input job is re-run
                 let mut it = origin[4..].splitn(2, "chunks-");
                 let n: usize = it.next().and_then(|x| x.parse().ok()).unwrap_or(0);
@@ -2095,6 +2171,8 @@ mod c08 {
             for bi in 0..BIG_COUNTS.len() * nsch {
                 specs.push((format!("big:{bi}"), json!({"big": bi, "tier": tier.name()})));
             }
+            // crafted well-formed objects whose chunks unpack to 2^32 bytes (19 MB each, a few seconds in all)
+            specs.push(("oversized".into(), json!({"oversized": true, "tier": tier.name()})));
             let tiny: Vec<(&str, usize)> = tier.pick(vec![("full", 1), ("five", 6)], vec![("full", 2), ("five", 8)]);
             for (kind, maxlen) in tiny {
                 let total = tiny_count(kind, maxlen);
